@@ -6,8 +6,13 @@
 (* is a list of steps:                                                     *)
 (*   nat  - the k-th state-changing precompile call of the transaction     *)
 (*          (x/staking/precompile, x/crosschain/precompile: every method   *)
-(*          runs inside stateDB.ExecuteNativeAction); `fail` marks a call  *)
-(*          built to fail INSIDE the native action (after partial work)    *)
+(*          runs inside stateDB.ExecuteNativeAction); `fail` is the way    *)
+(*          the call was built to end INSIDE the native action, after      *)
+(*          partial work: "no" (succeeds), "err" (the keeper returns an    *)
+(*          error: the call fails) or "panic" (the keeper code panics      *)
+(*          midway: that is not an EVM failure but aborts the execution    *)
+(*          of the WHOLE transaction, whoever would have caught a failure; *)
+(*          the transaction is refused and nothing at all is persisted)    *)
 (*   evm  - the j-th plain EVM effect (an ERC-20 transfer by the frame)    *)
 (*   sub  - call of a child frame                                          *)
 (*   rev / inv - REVERT / INVALID terminator                               *)
@@ -30,7 +35,7 @@
 EXTENDS Integers, Sequences, FiniteSets, TLC, Json
 
 CONSTANTS ProgId,    \* set of case ids (strings)
-          Prog,      \* [ProgId -> Seq([id, steps])], step = [t, k, mode, fail, id]
+          Prog,      \* [ProgId -> Seq([id, steps])], step = [t, k, mode, fail, id], fail \in {"no", "err", "panic"}
           Cuts,      \* [ProgId -> set of out-of-gas patterns (Seq(BOOLEAN) over slot ids)]
           MaxNat, MaxEvm,
           MaxTx      \* horizon: transactions per behaviour
@@ -69,27 +74,34 @@ NoOog(p)    == [i \in 1..NSlots(p) |-> FALSE]
 (* Operational semantics: execute frame f with journal `acc`; a failing    *)
 (* frame returns nothing (revert to its snapshot).                         *)
 RECURSIVE Exec(_, _, _), Run(_, _, _, _, _)
+Dead  == [ok |-> FALSE, abort |-> FALSE, eff |-> {}]
+Abort == [ok |-> FALSE, abort |-> TRUE, eff |-> {}]
 Exec(p, f, c) ==
-  IF c[Prog[p][f].id] THEN [ok |-> FALSE, eff |-> {}]      \* the frame itself runs out of gas
+  IF c[Prog[p][f].id] THEN Dead                            \* the frame itself runs out of gas
   ELSE Run(p, f, 1, {}, c)
 Run(p, f, i, acc, c) ==
-  IF i > Len(Steps(p, f)) THEN [ok |-> TRUE, eff |-> acc]
+  IF i > Len(Steps(p, f)) THEN [ok |-> TRUE, abort |-> FALSE, eff |-> acc]
   ELSE LET s == Steps(p, f)[i]
-           dead == [ok |-> FALSE, eff |-> {}]
-       IN CASE s.t \in {"rev", "inv"} -> dead
+       IN CASE s.t \in {"rev", "inv"} -> Dead
             [] s.t \in {"nat", "evm"} ->
-                 IF s.fail \/ c[s.id]
-                 THEN (IF s.mode = "catch" THEN Run(p, f, i + 1, acc, c) ELSE dead)
+                 IF c[s.id]                                 \* the call cannot pay for the callee: it never runs
+                 THEN (IF s.mode = "catch" THEN Run(p, f, i + 1, acc, c) ELSE Dead)
+                 ELSE IF s.fail = "panic" THEN Abort        \* reached and run: the transaction is aborted
+                 ELSE IF s.fail = "err"
+                 THEN (IF s.mode = "catch" THEN Run(p, f, i + 1, acc, c) ELSE Dead)
                  ELSE Run(p, f, i + 1, acc \cup {<<s.t, s.k>>}, c)
             [] s.t = "sub" ->
                  LET r == Exec(p, s.k, c)
-                 IN IF r.ok THEN Run(p, f, i + 1, acc \cup r.eff, c)
-                    ELSE IF s.mode = "catch" THEN Run(p, f, i + 1, acc, c) ELSE dead
+                 IN IF r.abort THEN Abort                   \* no frame catches an abort
+                    ELSE IF r.ok THEN Run(p, f, i + 1, acc \cup r.eff, c)
+                    ELSE IF s.mode = "catch" THEN Run(p, f, i + 1, acc, c) ELSE Dead
 
 Apply(name, p, c) ==
   LET r == Exec(p, 1, c)
       kept == IF r.ok THEN r.eff ELSE {}
-  IN /\ nat' = [k \in 1..MaxNat |-> nat[k] + (IF <<"nat", k>> \in kept THEN 1 ELSE 0)]
+  IN IF r.abort THEN Rej(Op(name, p, c, "ok"))
+     ELSE
+     /\ nat' = [k \in 1..MaxNat |-> nat[k] + (IF <<"nat", k>> \in kept THEN 1 ELSE 0)]
      /\ evm' = [j \in 1..MaxEvm |-> evm[j] + (IF <<"evm", j>> \in kept THEN 1 ELSE 0)]
      /\ status' = IF r.ok THEN "success" ELSE "failed"
      /\ ntx' = ntx + 1 /\ leak' = FALSE /\ split' = FALSE
@@ -115,7 +127,14 @@ Spec == Init /\ [][Next]_vars
 (* PROPERTY, stated without executing anything: a frame FAILS iff it ran    *)
 (* out of gas, ends in REVERT/INVALID, or makes a propagating call that     *)
 (* fails; an effect is KEPT iff its own call succeeded and no frame on the  *)
-(* chain from the root to its frame fails.                                  *)
+(* chain from the root to its frame fails.  A native call that does not     *)
+(* complete its action - error OR panic - is a call that fails: whatever    *)
+(* the implementation does about a panic (refuse the whole transaction, or  *)
+(* fail the call), none of that call's effects may stay.  The formulas are  *)
+(* therefore stated per OUTCOME of the real transaction: executed (res =    *)
+(* "ok": the kept-iff-frame-kept rule with the panicking call counted as a  *)
+(* failed call) or refused (res = "rej": nothing at all changed, and only a *)
+(* transaction that contains such a call may be refused).                   *)
 RECURSIVE Fails(_, _, _), InSub(_, _, _)
 Fails(p, f, c) ==
   \/ c[Prog[p][f].id]
@@ -123,23 +142,26 @@ Fails(p, f, c) ==
        LET s == Steps(p, f)[i] IN
          \/ s.t \in {"rev", "inv"}
          \/ /\ IsCall(s) /\ s.mode = "propagate"
-            /\ \/ s.t \in {"nat", "evm"} /\ (s.fail \/ c[s.id])
+            /\ \/ s.t \in {"nat", "evm"} /\ (s.fail # "no" \/ c[s.id])
                \/ s.t = "sub" /\ Fails(p, s.k, c)
 InSub(p, g, f) ==
   \/ g = f
   \/ \E i \in DOMAIN Steps(p, g) : Steps(p, g)[i].t = "sub" /\ InSub(p, Steps(p, g)[i].k, f)
 KeptAt(p, f, c) ==
   {<<Steps(p, f)[i].t, Steps(p, f)[i].k>> : i \in
-     {i \in DOMAIN Steps(p, f) : LET s == Steps(p, f)[i] IN s.t \in {"nat", "evm"} /\ ~s.fail /\ ~c[s.id]}}
+     {i \in DOMAIN Steps(p, f) : LET s == Steps(p, f)[i] IN s.t \in {"nat", "evm"} /\ s.fail = "no" /\ ~c[s.id]}}
 ChainKept(p, f, c) == \A g \in Frames(p) : InSub(p, g, f) => ~Fails(p, g, c)
 KeptSet(p, c) == UNION {IF ChainKept(p, f, c) THEN KeptAt(p, f, c) ELSE {} : f \in Frames(p)}
+HasPanic(p) == \E f \in Frames(p) : \E i \in DOMAIN Steps(p, f) : Steps(p, f)[i].fail = "panic"
 
-IsRun(o) == o.name \in {"RunProgram", "RunProgramGas"}
+IsRun(o)   == o.name \in {"RunProgram", "RunProgramGas"}
+Executed(o) == IsRun(o) /\ o.res = "ok"
+Refused(o)  == IsRun(o) /\ o.res = "rej"
 
 \* persisted Cosmos-side effects = exactly the native calls whose whole frame chain was kept; the EVM-side
 \* effects of the same frames are committed together with them
 A_C09_AllOrNothing ==
-  IsRun(op') =>
+  Executed(op') =>
     LET kept == KeptSet(op'.p, op'.c) IN
       /\ \A k \in 1..MaxNat : nat'[k] = nat[k] + (IF <<"nat", k>> \in kept THEN 1 ELSE 0)
       /\ \A j \in 1..MaxEvm : evm'[j] = evm[j] + (IF <<"evm", j>> \in kept THEN 1 ELSE 0)
@@ -147,18 +169,24 @@ C09_AllOrNothing == [][A_C09_AllOrNothing]_vars
 
 \* a failed transaction persists nothing (judged by the REAL receipt status)
 A_C09_NothingWhenFailed ==
-  (IsRun(op') /\ status' = "failed") => (nat' = nat /\ evm' = evm)
+  (Executed(op') /\ status' = "failed") => (nat' = nat /\ evm' = evm)
 C09_NothingWhenFailed == [][A_C09_NothingWhenFailed]_vars
 
 \* the receipt status is the fate of the root frame
 A_C09_Status ==
-  IsRun(op') => status' = (IF Fails(op'.p, 1, op'.c) THEN "failed" ELSE "success")
+  Executed(op') => status' = (IF Fails(op'.p, 1, op'.c) THEN "failed" ELSE "success")
 C09_Status == [][A_C09_Status]_vars
 
 \* a transaction that cannot pay its intrinsic gas changes nothing
 A_C09_InvalidNoEffect ==
   op'.name = "Intrinsic" => (op'.res = "rej" /\ nat' = nat /\ evm' = evm /\ ntx' = ntx)
 C09_InvalidNoEffect == [][A_C09_InvalidNoEffect]_vars
+
+\* a transaction whose execution is aborted (a native action panicked) changes nothing at all, and no other
+\* transaction is ever refused once it can pay its intrinsic gas
+A_C09_AbortNoEffect ==
+  Refused(op') => (HasPanic(op'.p) /\ nat' = nat /\ evm' = evm /\ ntx' = ntx /\ status' = status /\ leak' = leak /\ split' = split)
+C09_AbortNoEffect == [][A_C09_AbortNoEffect]_vars
 
 \* dropped frames leave no trace in ANY store (complete multistore dump and receipt logs equal those of the
 \* transaction reduced to its kept frames; failed transaction: dump unchanged modulo the sender's nonce)
